@@ -45,7 +45,7 @@ META = {
 }
 
 MANIFEST = {
-    'level_text': 'Two parts. Proved (deductive, on the real AST of the tool): build_iso_path returns parent + "/" + an identifier that is the name it found free, differs from every name in use at that level, is recorded as used exactly once and is itself legal for the interchange level (one dot, d-characters, 8.3 at level 1 / 30 characters) also after collisions and for name parts shorter than the five-character prefix; build_joliet_path / build_udf_path keep fitting components unchanged. Bounded (run-time contracts on the real programs, labelled bounded, not counted as proved): 53 (thorough: 161) tree x option round trips, incl. random source trees, through pycdlib-genisoimage and pycdlib-extract-files comparing relative paths, contents and symbolic links per requested view, exactly-once and legal identifiers in the ISO9660 view, absent views when not requested, duplicate linking not changing any content. Six defects found and repaired (K31 two-dot names, K33 hash-only duplicates, K41 -R dropped symlinks, K42 extraction of relocation placeholders, K43 missing continue, K51 level-4 semicolons) and one recorded (K34 UDF symlink extraction).',
+    'level_text': 'Two parts. Proved (deductive, on the real AST of the tool): build_iso_path returns parent + "/" + an identifier that is the name it found free, differs from every name in use at that level, is recorded as used exactly once and is itself legal for the interchange level (one dot, d-characters, 8.3 at level 1 / 30 characters) also after collisions and for name parts shorter than the five-character prefix; build_joliet_path / build_udf_path keep fitting components unchanged. Bounded (run-time contracts on the real programs, labelled bounded, not counted as proved): 53 (thorough: 161) tree x option round trips, incl. random source trees, through pycdlib-genisoimage and pycdlib-extract-files comparing relative paths, contents and symbolic links per requested view, exactly-once and legal identifiers in the ISO9660 view, absent views when not requested, duplicate linking not changing any content. Seven defects found and repaired (K31 two-dot names, K33 hash-only duplicates, K41 -R dropped symlinks, K42 extraction of relocation placeholders, K43 missing continue, K51 level-4 semicolons, K34 extraction of symbolic links from the UDF view).',
     'level_note': 'The end-to-end statement is only checked on a finite table (bounded stand-in); the deductive part covers the path builders. Trusted: pyvc, CPython file system calls in the harness.',
     'design_ref': 'DESIGN.md section 4 C20',
 }
